@@ -489,7 +489,7 @@ Step(e) ==
     [] e.ev = "PolEnter" ->    \* white-box, under the policy lock: the state the decision starts from
          /\ bad' = bad \cup Flag("C09", pendRej = {}, "an item turned away by the policy was not reported through OnReject")
          /\ pendRej' = {}
-         /\ polCur' = [h |-> e.h, has |-> e.has, big |-> e.cost > e.max, fits |-> (~e.has /\ e.cost <= e.max /\ e.max - (e.used + e.cost) >= 0),
+         /\ polCur' = [h |-> e.h, has |-> e.has, big |-> e.cost > e.max, fits |-> (~e.has /\ e.cost <= e.max /\ e.max - ((IF "ksum" \in DOMAIN e THEN e.ksum ELSE e.used) + e.cost) >= 0),
                        lower |-> FALSE, inc |-> e.inc, max |-> e.max, rounds |-> 0,
                        \* MaxCost is read without the policy lock: the record is usable only if no UpdateMaxCost was in
                        \* progress when it was taken (harness counters sampled before the read)
